@@ -465,7 +465,13 @@ def run(repo: Repo, tier: str) -> Report:
     for a in ("idx", "yidx", "ndays", "label", "start_date", "end_date", "raw"):
         if a not in pm:
             raise AnalysisError(f"missing anchor: Period.{a} in {AFILE}")
-        e = single_return_any(pm[a])
+        try:
+            e = single_return_any(pm[a])
+        except AnalysisError:
+            rep.ob("R-SIBLING(accessor)", AFILE, f"Period.{a}", f"accessor .{a} applies the scalar attribute of the same name", False,
+                   f"Period.{a} is no longer the element-wise application of Dekad(x).{a}: a separate vectorised implementation can disagree with the scalar class",
+                   pm[a].body[-1])
+            continue
         txt = norm_stmt(e)
         inner = f"str(self._period_cls(x))" if a == "label" else f"self._period_cls(x).{a}"
         want = f"self._tseries.apply(lambda x: {inner}).to_xarray()"
